@@ -116,6 +116,34 @@ def key_bytes(nb, ident):
     return b"\x1b[1;5" + bytes([65 + 32 + ident % 4]) if nb == 6 else bytes([97 + ident % 26]) * nb
 
 
+def split_keys(data):
+    """keypress segmentation of bytes built from key_bytes() units (letters, UTF-8 characters, the escape
+    sequences ESC[A ESC[B ESCOP ESC[3~): the arrival's own structure, recorded as an environment fact"""
+    out = []
+    i = 0
+    b = bytes(data)
+    while i < len(b):
+        c = b[i]
+        if c == 0x1B:
+            if b[i:i + 4] == b"\x1b[3~":
+                n = 4
+            elif b[i:i + 3] in (b"\x1b[A", b"\x1b[B", b"\x1bOP"):
+                n = 3
+            else:
+                n = 1
+        elif c >= 0xF0:
+            n = 4
+        elif c >= 0xE0:
+            n = 3
+        elif c >= 0xC0:
+            n = 2
+        else:
+            n = 1
+        out.append(list(b[i:i + n]))
+        i += n
+    return out
+
+
 def run_history(hist, paste_threshold=8, final_drain=True):
     """hist: list of actions {"k": arrive|unget|trig|sched|tsappend|tswrite|tscall|sigint|tick|req, ...}.
     Returns the recorded trace {"paste": threshold or -1, "ev": [...]}"""
@@ -154,7 +182,7 @@ def run_history(hist, paste_threshold=8, final_drain=True):
                 if k == "arrive":
                     data = bytes(a["bytes"])
                     os.write(stream.master, data)
-                    rec.append({"k": "arrive", "bytes": list(data)})
+                    rec.append({"k": "arrive", "bytes": list(data), "keys": a.get("keys") or split_keys(data)})
                 elif k == "unget":
                     data = bytes(a["bytes"])
                     inp.unget_bytes(data)
